@@ -72,7 +72,7 @@ class WaitGate(raw_types.Gate):
             raise ValueError('Waiting on an empty set of qubits.')
         if num_qubits != len(qid_shape):
             raise ValueError('len(qid_shape) != num_qubits')
-        self._qid_shape = qid_shape
+        self._qid_shape = tuple(qid_shape)
 
     @property
     def duration(self) -> cirq.Duration:
